@@ -283,3 +283,100 @@ func VerifDepositFor(data []byte, v any) { VerifDeposits[&data[0]] = v }
 func VerifArrayHeaderSizeFromBytes(data []byte, off int) (int, error) {
 	return cborArrayHeaderSizeFromBytes(data, off)
 }
+
+// ---- framed-message contract (protocol read loop) ----
+
+// verifExtent is the reference extent of one item made of unsigned integers, definite byte
+// strings and definite arrays of those (RFC 8949): its length, io.ErrUnexpectedEOF when the
+// input ends inside it, errVerifStub when it is malformed. Anything else is outside the contract.
+func verifExtent(data []byte, off int, depth int) (int, error) {
+	if off >= len(data) {
+		return 0, io.ErrUnexpectedEOF
+	}
+	b0 := data[off]
+	ai := b0 & 0x1f
+	need := 1
+	switch {
+	case ai == 24:
+		need = 2
+	case ai == 25:
+		need = 3
+	case ai == 26:
+		need = 5
+	case ai == 27:
+		need = 9
+	case ai > 27:
+		verifBoundExceeded("framed contract: indefinite or reserved head")
+	}
+	if len(data)-off < need {
+		return 0, io.ErrUnexpectedEOF
+	}
+	major, arg, hlen, _, _ := VerifHead(data, off)
+	switch major {
+	case 0:
+		return hlen, nil
+	case 2:
+		if arg > uint64(len(data)-off-hlen) {
+			return 0, io.ErrUnexpectedEOF
+		}
+		return hlen + int(arg), nil
+	case 4:
+		if depth > 0 || arg > verifMaxItems {
+			verifBoundExceeded("framed contract: nested or long array")
+		}
+		n := hlen
+		for i := 0; i < int(arg); i++ {
+			l, err := verifExtent(data, off+n, depth+1)
+			if err != nil {
+				return 0, err
+			}
+			n += l
+		}
+		return n, nil
+	}
+	verifBoundExceeded("framed contract: item kind")
+	return 0, errVerifStub
+}
+
+// VerifStubDecodeFramed is the contract of cbor.Decode for the two destinations the protocol
+// read loop uses, on streams made of arrays of unsigned integers and definite byte strings: the
+// first complete item is decoded and its length returned; an item cut short by the end of the
+// input gives io.ErrUnexpectedEOF.
+func VerifStubDecodeFramed(data []byte, dest any) (int, error) {
+	if len(data) == 0 {
+		return 0, io.EOF
+	}
+	switch v := dest.(type) {
+	case *[]RawMessage:
+		total, err := verifExtent(data, 0, 0)
+		if err != nil {
+			return 0, err
+		}
+		major, cnt, hlen, _, _ := VerifHead(data, 0)
+		if major != 4 {
+			return total, errVerifStub
+		}
+		items := []RawMessage{}
+		off := hlen
+		for i := 0; i < int(cnt); i++ {
+			l, _ := verifExtent(data, off, 1)
+			items = append(items, RawMessage(data[off:off+l]))
+			off += l
+		}
+		*v = items
+		return total, nil
+	case *uint:
+		total, err := verifExtent(data, 0, 0)
+		if err != nil {
+			return 0, err
+		}
+		major, arg, _, _, _ := VerifHead(data, 0)
+		if major != 0 {
+			return total, errVerifStub
+		}
+		*v = uint(arg)
+		return total, nil
+	}
+	verifBoundExceeded("framed contract: destination type")
+	return 0, errVerifStub
+}
